@@ -17,7 +17,7 @@ import (
 func TestC01(t *testing.T) {
 	r := report.Start("C01")
 	defer r.Finish()
-	nh := r.Pick(2, 16)
+	nh := r.Cases(2, 16)
 	for i := 0; i < nh; i++ {
 		id := fmt.Sprintf("hist/%d", i)
 		if !r.Want(id, i) {
@@ -27,7 +27,7 @@ func TestC01(t *testing.T) {
 	}
 	// directed: governance campaigns on the EVM parameters in quick succession (half of them rolled
 	// back), so that followers which restart along the way meet state that changed under them
-	for i := 0; i < r.Pick(3, 8); i++ {
+	for i := 0; i < r.Cases(3, 8); i++ {
 		id := fmt.Sprintf("gov/%d", i)
 		if !r.Want(id, nh+i) {
 			continue
